@@ -18,6 +18,11 @@ Context {F : Type} {NF : Num F}.
 Variable c : cfg.
 Notation val := (@val F).
 
+(* payloads of generic streams / histories: the types the crate's generic code is instantiated with *)
+Inductive pay := PF (x : F) | PQ (q : @quantity F) | PB (b : bool) | PS (s : @state F) | PC (k : @command F).
+Definition pv (p : pay) : val :=
+  match p with PF x => VF x | PQ q => VQ q | PB b => VB b | PS s => VS s | PC k => VC k end.
+
 (* run-time values: API values at the leaves; Result / Option / structs / arrays / enums above them *)
 Inductive mval :=
 | MV (v : val)
@@ -28,6 +33,7 @@ Inductive mval :=
 | MTup0
 | MErrV (e : err)                 (* a value of type Error<E> *)
 | MUninit                         (* a MaybeUninit slot that has not been written *)
+| MFun (f : Z -> option (Z * pay))   (* an external function of a time (a History): time stamp and payload of the datum it returns *)
 | MVariant (n : string).          (* a field-less enum variant of a private enum *)
 
 Inductive pat :=
@@ -57,6 +63,7 @@ Inductive mexpr :=
 | EUs (o : Z) (a b : mexpr)            (* usize arithmetic on counters: 1 +, 2 - (underflow panics) *)
 | ESplitAt (e : mexpr) (k : mexpr)     (* .split_at(k) as the array of the two halves *)
 | EForRange (x : string) (lo hi body : mexpr)   (* for x in lo..hi *)
+| ECallFn (f : mexpr) (a : mexpr)      (* history.get(t) *)
 | EQFrom (e : mexpr)                   (* Quantity::from(e): the table's conversion, or the identity (From<T> for T) on a Quantity *)
 | EOk (e : mexpr) | EErr (e : mexpr) | ESome (e : mexpr) | ENone | EUnit
 | EErrFromNone
@@ -222,16 +229,22 @@ Definition into_val (m : mval) : option mval :=
 Inductive tree (X : Type) : Type :=
 | Leaf (x : X)
 | TRes (A : Type) (r : res A) (k : A -> tree X)
-| TIf (b : bool) (x y : tree X).
+| TIf (b : bool) (x y : tree X)
+| TAsk (A : Type) (o : option A) (ks : A -> tree X) (kn : tree X)    (* the answer of an external function *)
+| TPay (p : pay) (k : val -> tree X).                               (* the shape of a payload *)
 Arguments Leaf {X} x.
 Arguments TRes {X A} r k.
 Arguments TIf {X} b x y.
+Arguments TAsk {X A} o ks kn.
+Arguments TPay {X} p k.
 
 Fixpoint tmap {X Y} (f : X -> tree Y) (t : tree X) : tree Y :=
   match t with
   | Leaf x => f x
   | TRes r k => TRes r (fun a => tmap f (k a))
   | TIf b x y => TIf b (tmap f x) (tmap f y)
+  | TAsk o ks kn => TAsk o (fun a => tmap f (ks a)) (tmap f kn)
+  | TPay p k => TPay p (fun v => tmap f (k v))
   end.
 (* sequencing on outcomes: only a normal completion continues *)
 Definition tbind (t : tree outcome) (k : mval -> env -> tree outcome) : tree outcome :=
@@ -244,6 +257,8 @@ Notation "'do' '(' v ',' en ')' '<-' r ';' k" := (tbind r (fun v en => k))
 Definition tq (r : res (@quantity F)) (f : @quantity F -> val) : tree rv := TRes r (fun q => Leaf (RVal (f q))).
 Definition prim_tree (o : Z) (ws : list val) : tree rv :=
   match ws with
+  | [VT a] => if o =? 9 then TRes (ineg a) (fun z => Leaf (RVal (VT z))) else Leaf (apply_op c o ws)
+  | [VD a] => if o =? 9 then TRes (ineg a) (fun z => Leaf (RVal (VD z))) else Leaf (apply_op c o ws)
   | [VT a; VT b] =>
       if (o =? 1) || (o =? 5) then TRes (iadd a b) (fun z => Leaf (RVal (VT z)))
       else if (o =? 2) || (o =? 6) then TRes (isub a b) (fun z => Leaf (RVal (VT z)))
@@ -371,7 +386,7 @@ Fixpoint eval (e : mexpr) (en : env) {struct e} : tree outcome :=
       do (w, en2) <- eval i en1;
       match v, w with
       | MArr l, MV (VI z) =>
-          if z <? 0 then Leaf OPanic
+          if negb (0 <=? z) then Leaf OPanic
           else match nth_error l (Z.to_nat z) with Some x => ret1 x en2 | None => Leaf OPanic end
       | _, _ => Leaf OType
       end
@@ -380,7 +395,7 @@ Fixpoint eval (e : mexpr) (en : env) {struct e} : tree outcome :=
       do (v, en2) <- eval a en1;
       match lval_get l en2, w with
       | Some (MArr items), MV (VI z) =>
-          if z <? 0 then Leaf OPanic
+          if negb (0 <=? z) then Leaf OPanic
           else match set_nth items (Z.to_nat z) v with
                | Some items' => match lval_set l (MArr items') en2 with Some en3 => ret1 MTup0 en3 | None => Leaf OType end
                | None => Leaf OPanic
@@ -396,7 +411,7 @@ Fixpoint eval (e : mexpr) (en : env) {struct e} : tree outcome :=
       match x, y with
       | MV (VI p), MV (VI q) =>
           if o =? 1 then ret1 (MV (VI (p + q))) en2
-          else if o =? 2 then (if p <? q then Leaf OPanic else ret1 (MV (VI (p - q))) en2)
+          else if o =? 2 then (if negb (q <=? p) then Leaf OPanic else ret1 (MV (VI (p - q))) en2)
           else Leaf OType
       | _, _ => Leaf OType
       end
@@ -405,7 +420,7 @@ Fixpoint eval (e : mexpr) (en : env) {struct e} : tree outcome :=
       do (w, en2) <- eval k en1;
       match v, w with
       | MArr l, MV (VI z) =>
-          if (z <? 0) || (Z.of_nat (List.length l) <? z) then Leaf OPanic
+          if negb (0 <=? z) || negb (z <=? Z.of_nat (List.length l)) then Leaf OPanic
           else ret1 (MArr [MArr (firstn (Z.to_nat z) l); MArr (skipn (Z.to_nat z) l)]) en2
       | _, _ => Leaf OType
       end
@@ -414,6 +429,14 @@ Fixpoint eval (e : mexpr) (en : env) {struct e} : tree outcome :=
       do (b, en2) <- eval hi en1;
       match a, b with
       | MV (VI p), MV (VI q) => for_range (eval body) x p (Z.to_nat (q - p)) en2
+      | _, _ => Leaf OType
+      end
+  | ECallFn f a =>
+      do (g, en1) <- eval f en;
+      do (v, en2) <- eval a en1;
+      match g, v with
+      | MFun h, MV (VT t) =>
+          TAsk (h t) (fun a => TPay (snd a) (fun w => ret1 (MSome (MV (VDat (fst a) w))) en2)) (ret1 MNone en2)
       | _, _ => Leaf OType
       end
   | EQFrom a =>
@@ -513,6 +536,12 @@ Fixpoint flatten {X} (t : tree X) : res X :=
   | Leaf x => Ok x
   | TRes r k => match r with Ok a => flatten (k a) | Panic => Panic end
   | TIf b x y => if b then flatten x else flatten y
+  | TAsk o ks kn => match o with Some a => flatten (ks a) | None => flatten kn end
+  | TPay p k =>
+      match p with
+      | PF x => flatten (k (VF x)) | PQ q => flatten (k (VQ q)) | PB b => flatten (k (VB b))
+      | PS s => flatten (k (VS s)) | PC x => flatten (k (VC x))
+      end
   end.
 Definition flatten_rv (t : tree (@rv F)) : @rv F := match flatten t with Ok r => r | Panic => RPanic end.
 
